@@ -235,8 +235,9 @@ def summarize(tier, seed, merged, phases):
                 'DS block written to a fresh path and read back, structurally equal and library-equal'
                 % (6 if tier == 'quick' else 7),
         'strings_enumerated': c.get('strings', 0),
+        # the thorough tier also runs the quick tier's shards
         'strings_expected': spaces.strings_count(9, 6) if tier == 'quick' else
-        spaces.strings_count(11, 7) + 9 ** 8,
+        spaces.strings_count(9, 6) + spaces.strings_count(11, 7) + 9 ** 8,
     }
     if cov['strings_enumerated'] != cov['strings_expected']:
         raise harness.HarnessError('string enumeration incomplete: %r' % cov)
